@@ -73,6 +73,7 @@ type Cluster struct {
 	Twin *Instance
 	// AuthCalls counts authenticator invocations.
 	AuthCalls int
+	all       []*vgirpc.HttpServer
 }
 
 func (c *Cluster) authenticate(r *http.Request) (*vgirpc.AuthContext, error) {
@@ -126,6 +127,7 @@ func (c *Cluster) build(i int, name string, cache int) *Instance {
 	if c.Cfg.Setup != nil {
 		c.Cfg.Setup(i, srv, h)
 	}
+	c.track(h)
 	return &Instance{Name: name, Srv: srv, H: h, Cache: cache, idx: i}
 }
 
